@@ -125,9 +125,9 @@ def replay_nested(cases):
 
   def f(carry, x):
     c, (log, ptr) = carry['c'], carry['h']
-    xv, pos = x['x'], x['pos']
+    xv, pos, m = x['x'], x['pos'], x['m']
     new = {'c': 2 * c + xv, 'h': (log.at[ptr].set(pos), ptr + 1)}
-    return new, {'y': c * xv + 1, 'pos': pos}
+    return new, {'y': c * xv + 1, 'pos': pos, 'v': jnp.stack([xv, m[0], m[1] + xv])}
 
   import contextlib
 
@@ -144,7 +144,8 @@ def _replay_nested_one(c, f):
   out = []
   lens = c['lens']
   n = len(c['xs'])
-  xs = {'x': jnp.asarray(c['xs'], jnp.float64), 'pos': jnp.arange(1, n + 1, dtype=jnp.int64)}
+  xs = {'x': jnp.asarray(c['xs'], jnp.float64), 'pos': jnp.arange(1, n + 1, dtype=jnp.int64),
+        'm': jnp.asarray(c['xm'], jnp.float64)}
   init = {'c': jnp.asarray(float(c['init'])),
           'h': (jnp.full((CAP,), -1, jnp.int64), jnp.asarray(0, jnp.int32))}
   for length in (None, n):
@@ -153,6 +154,9 @@ def _replay_nested_one(c, f):
     if outs['y'].shape != (n,) or got != c['outs'] or int(carry['c']) != c['carry']:
       out.append({'case': c, 'sig': 'nested:values',
                   'detail': f'carry {int(carry["c"])} outs {got} != spec {c["carry"]} {c["outs"]}'})
+    if outs['v'].shape != (n, 3) or np.asarray(outs['v']).tolist() != [[float(t) for t in r] for r in c['vouts']]:
+      out.append({'case': c, 'sig': 'nested:vector_outputs',
+                  'detail': f'stacked vector output shape {outs["v"].shape} values differ from spec'})
     order = _decode(*carry['h'])
     if order != list(range(1, n + 1)) or [int(v) for v in outs['pos']] != order:
       out.append({'case': c, 'sig': 'nested:order', 'detail': f'consumed {order}'})
